@@ -49,10 +49,12 @@ Inductive case :=
    [distinct] = "hi alone" and "lo alone" differ *)
 | CLoad (name : str) (isbool : bool) (arr : arrangement) (v1 v2 : str) (hi lo : N)
         (distinct : bool) (winner : N)
-(* config.Load with no arguments on an arbitrary environment block *)
+(* config.Load with no arguments on an arbitrary environment block (entries without '='
+   included: they are skipped since fix 3899f15) *)
 | CLoadEnv (environ : list str) (panicked : bool)
-(* glob.cache.size = size: did config.Load accept it; a fresh route.NewGlobCache(size)
-   and a sequence of Get calls (pattern, glob.Compile succeeds) *)
+(* glob.cache.size = size: did config.Load accept it; if so a fresh
+   route.NewGlobCache(cfg.GlobCacheSize) and a sequence of Get calls (pattern,
+   glob.Compile succeeds); impl = Err 1 when Load returned an error *)
 | CGlob (size : Z) (accepted : bool) (calls : list (str * bool))
         (impl : outcome (list (outcome bool)))
 (* parseKVSlice([]rune): [want] = the maps the input was generated from, when it was *)
@@ -124,8 +126,7 @@ Definition check_case (c : case) : N :=
                       | _ => false
                       end
                   end in
-      let region := if env_well_formed environ then None else Some 1 in
-      verdict same spec region
+      verdict same spec None
               (match m with Ok rs => existsb (fun r => r_set r) rs | _ => false end)
   | CEquiv name isbool v arrs eqs accepted differs =>
       (* model: from every source alone the flag's Value.Set receives exactly v *)
@@ -150,18 +151,18 @@ Definition check_case (c : case) : N :=
       let spec := negb distinct || (winner =? 1) in
       verdict same spec None distinct
   | CLoadEnv environ panicked =>
-      let m := env_map environ [] in
+      (* the model's ParseFlags never panics, whatever the block (C15_never_panics) *)
+      let m := parse_flags [] no_bad [] environ fabio_prefixes None in
       let same := Bool.eqb panicked (is_panic m) in
-      let region := if env_well_formed environ then None else Some 1 in
-      verdict same (negb panicked) region (match environ with [] => false | _ => true end)
+      verdict same (negb panicked) None (negb (env_well_formed environ))
   | CGlob size accepted calls impl =>
-      let m := glob_session size calls in
+      (* impl = Err 1 when config.Load returned an error (nothing to run) *)
+      let m := load_then_use size calls in
       let same := out_eqb (list_eqb (out_eqb (fun _ _ : bool => true))) impl m
                   && Bool.eqb accepted (load_accepts_glob_cache_size size) in
       let panics := match impl with Panic => true | Ok l => has_panic l | Err _ => false end in
       let spec := negb accepted || negb panics in
-      let region := if (size <=? 0)%Z then Some 2 else None in
-      verdict same spec region (match calls with [] => false | _ => true end)
+      verdict same spec None (match calls with [] => false | _ => true end)
   | CKV input want impl =>
       let m := parse_kvslice input in
       let same := kv_eqb impl m in
